@@ -94,7 +94,7 @@ theorem foldl_client_skip (ps : List (Str × Str)) (m : List (Str × Value)) (h 
 
 theorem parseFloatLit_quote (t : Str) : parseFloatLit ('"' :: t) = none := by
   have hu : isAsciiUpper '"' = false := by decide
-  simp [parseFloatLit, isDigit, lowerStr, asciiLower, hu]
+  simp [parseFloatLit, parseFloatBody, isDigit, lowerStr, asciiLower, hu]
 
 end Hls
 
